@@ -452,12 +452,15 @@ def oracle_c13(row, post):
                 fails.append(("sql_renders_diff", 1, "sql renders %d action(s) %s, diff lists %d %s" % (
                     len(got), [a[0] + ":" + ".".join(a[1][:1]) for a in got][:4], len(want), [a[0] + ":" + ".".join(a[1][:1]) for a in want][:4])))
         elif s[0] == "err":
-            fails.append(("sql_renders_diff", None, "diff succeeds, sql fails"))
+            # (with a prefix, `sql` sees every model table as new: creating them all at once can fail on an FK cycle)
+            fails.append(("sql_renders_diff", 1, "diff succeeds, sql fails before SQL generation"))
         if o["status"] == "sync" and reports:
             fails.append(("status_sync_implies_no_diff", 0, "status says synchronized, diff lists %d change(s): %s" % (len(d[1]), d[1][0][0])))
     # append-only history
+    saturated = max(row["versions"] or [0]) == 4294967295
+    over = 4 if saturated else 3
     if o["rev_removed"] or o["rev_changed"]:
-        fails.append(("revision_append_only", 3, "revision modified existing migration file(s) %s" % (o["rev_changed"] + o["rev_removed"])))
+        fails.append(("revision_append_only", over, "revision modified existing migration file(s) %s" % (o["rev_changed"] + o["rev_removed"])))
     if len(o["rev_added"]) > 1:
         fails.append(("revision_append_only", None, "revision added %d files" % len(o["rev_added"])))
     if o["rev"] == "wrote" and row["versions"] is not None:
@@ -466,13 +469,13 @@ def oracle_c13(row, post):
         if v != mx + 1 and not (mx == 4294967295 and v == mx):
             fails.append(("revision_append_only", None, "new version %d, previous maximum %d" % (v, mx)))
         if mx == 4294967295:
-            fails.append(("revision_append_only", 3, "version counter saturated: new migration reuses version %d" % v))
+            fails.append(("revision_append_only", 4, "version counter saturated: new migration reuses version %d" % v))
     # the history the tool wrote must stay readable by the tool
     if o["rev"] == "wrote" and post is not None:
         po = post["obs"]
         if po["diff"][0] == "err" and d[0] != "err":
             # an overwritten migration (finding 3) breaks the history as well
-            fails.append(("revision_output_loadable", 3 if o["rev_changed"] else 2, "after `revision` wrote %s, `diff` exits 1" % o["wrote"]["file"]))
+            fails.append(("revision_output_loadable", over if o["rev_changed"] else 2, "after `revision` wrote %s, `diff` exits 1" % o["wrote"]["file"]))
     # log shows every stored migration
     lg = o["log"]
     if lg[0] == "entries" and sorted(v for v, _ in lg[1]) != sorted(row["versions"]):
@@ -559,8 +562,8 @@ def run_corpus_case(hcli, base, path):
 
 def sizes(tier):
     if tier == "thorough":
-        return {"evolutions": 260, "steps": 4, "tree_evolutions": 120, "per_shard": 12}
-    return {"evolutions": 44, "steps": 3, "tree_evolutions": 24, "per_shard": 10}
+        return {"evolutions": 700, "steps": 4, "tree_evolutions": 500, "per_shard": 25}
+    return {"evolutions": 120, "steps": 3, "tree_evolutions": 90, "per_shard": 25}
 
 
 def gen_evolutions(hcli, seed, count, steps):
@@ -890,3 +893,73 @@ def run_tree(tier, seed):
             fails[i] = f
     return {"rows": rows, "mismatches": mism, "classes": classes, "errors": errors, "fails": fails, "skipped": len(skipped),
             "drive_s": round(drive_s, 1), "dir": base}
+
+
+# =================================================================================== verdicts shared by c13.py / c20.py
+def load_findings(prop):
+    """committed known findings of this property + the proposals waiting to be committed (props/known_<prop>.proposed.json)"""
+    out = [k for k in vflib.load_known() if k.get("property") == prop]
+    p = os.path.join(ROOT, "props", "known_%s.proposed.json" % prop)
+    if os.path.exists(p):
+        have = {k["id"] for k in out}
+        out += [k for k in json.load(open(p)).get("findings", []) if k["id"] not in have and k.get("property") == prop]
+    return out
+
+
+def verdict(chk, prop, res, cls_names, input_of, corr_id, exempt=None):
+    """classify oracle failures by the Gallina classifiers (evaluated in Coq with the cases), register violations"""
+    rows, fails, classes, mism = res["rows"], res["fails"], res["classes"], dict(res["mismatches"])
+    findings = load_findings(prop)
+    open_by_cls = {k["classifier"]: k for k in findings if k.get("status") == "open"}
+    attributed = {}      # finding id -> [row idx]
+    unexplained = []
+    for i, fl in sorted(fails.items()):
+        for clause, k, text in fl:
+            name = cls_names[k] if k is not None else None
+            f = open_by_cls.get(name)
+            if f is not None and classes.get(i) and k < len(classes[i]) and classes[i][k]:
+                attributed.setdefault(f["id"], []).append((i, clause, text))
+            else:
+                unexplained.append((i, clause, text, name))
+    for f in findings:
+        if f.get("status") != "open":
+            continue
+        wit = os.path.basename(f.get("witness", ""))
+        hits = attributed.get(f["id"], [])
+        wit_hits = [h for h in hits if rows[h[0]]["tag"].startswith("corpus:" + wit + ":")]
+        if wit_hits or hits:
+            chk.known_finding(f["id"], f["what"])
+        if not wit_hits:
+            chk.notes.append("NOTE stale known finding %s: its witness %s no longer fails" % (f["id"], f.get("witness")))
+    exempt_rows = set()
+    if exempt is not None:
+        exempt_rows = {i for i in mism if classes.get(i) and classes[i][exempt]}
+    rel = {i: s for i, s in mism.items() if i not in exempt_rows}
+    chk.cov["correspondences"] = {corr_id: {"cases": len(rows), "mismatches": len(rel), "shard_errors": len(res["errors"]),
+                                            "exempt_write_race": len(exempt_rows)}}
+    chk.cov["theorem_coverage"] = {"oracle_failures": sum(len(v) for v in fails.values()),
+                                   "classified_known": {k: len(v) for k, v in attributed.items()}, "unexplained": len(unexplained)}
+    seen = set()
+    for i, clause, text, name in unexplained:
+        if (i, clause) in seen or len(seen) >= 5:
+            continue
+        seen.add((i, clause))
+        rp = vflib.write_replay(prop, "oracle", {"tier": chk.tier, "seed": chk.seed, "clause": clause, "what": text, "tag": rows[i]["tag"],
+                                                 "classifier_tried": name, "input": input_of(rows[i]),
+                                                 "replay_cmd": "./vf replay %s <this file>" % prop})
+        chk.violation(rp)
+    if (rel or res["errors"]) and not unexplained:
+        payload = {"tier": chk.tier, "seed": chk.seed, "correspondence": corr_id, "shard_errors": res["errors"][:2]}
+        if rel:
+            i = sorted(rel)[0]
+            payload["first_differing_case"] = input_of(rows[i])
+            payload["subchecks"] = rel[i]
+            payload["tag"] = rows[i]["tag"]
+            payload["gallina_case"] = rows[i]["term"][:20000]
+        rp = vflib.write_replay(prop, "correspondence:" + corr_id, payload)
+        chk.violation(rp, True)
+    return attributed, unexplained
+
+
+def setup():
+    build_all()
